@@ -941,15 +941,19 @@ fn parse_number(
         if x.is_ascii_digit() {
             chars.push(x);
         } else if x == group_separator {
+            // two group separators in a row, as in "1,,234"
+            if group_separator_index.last() == Some(&chars.len()) {
+                return Err("Cannot parse number".to_string());
+            }
             group_separator_index.push(chars.len());
         } else {
             break;
         }
         position += 1;
     }
-    // Check the group separator is in multiples of three
+    // Check the group separator is in multiples of three (and is followed by digits: not "123,")
     for index in &group_separator_index {
-        if (chars.len() - index) % 3 != 0 {
+        if chars.len() == *index || (chars.len() - index) % 3 != 0 {
             return Err("Cannot parse number".to_string());
         }
     }
